@@ -557,3 +557,123 @@ def ident_run(fns, table, comb, faithful_notes):
         if want not in raw:
             failures.append(fail('keyword', 'C13.kw.keyword-word-boundary', 'keyword(t) no longer requires end of input or a non-[A-Za-z0-9_] character after t', ['C13', 'C02'], kw))
     return dict(failures=failures, checked=checked, undecided=undecided)
+
+
+# =====================================================================================
+# C06: the pp grammar accepts every position of directive-free text (two-byte look-ahead analysis)
+# =====================================================================================
+def _lit(e):
+    """string literal of a ('lit', '"..."') node as bytes, or None"""
+    if e[0] == 'lit' and e[1].startswith('"'):
+        try:
+            return bytes(eval('b' + e[1]))
+        except Exception:
+            try:
+                return eval(e[1]).encode('utf-8')
+            except Exception:
+                return None
+    return None
+
+
+def _accepts(e, b1, b2):
+    """does parser expression e accept at a position whose next bytes are b1 and b2 (b2 None = end of input)?
+    True / False / None (construct outside this small evaluator)"""
+    if e[0] != 'call' or e[1][0] not in ('var', 'path'):
+        return None
+    f, a = e[1][1], e[2]
+    if f == 'is_not':
+        l = _lit(a[0])
+        return None if l is None else (b1 not in l)
+    if f == 'is_a' or f == 'one_of':
+        l = _lit(a[0])
+        return None if l is None else (b1 in l)
+    if f == 'none_of':
+        l = _lit(a[0])
+        return None if l is None else (b1 not in l)          # needs a character to be there: b1 is one
+    if f == 'tag':
+        l = _lit(a[0])
+        if l is None or len(l) == 0 or len(l) > 2:
+            return None
+        return b1 == l[0] and (len(l) == 1 or b2 == l[1])
+    if f == 'alt':
+        parts = a[0][1] if a and a[0][0] == 'tuple' else a
+        rs = [_accepts(p_, b1, b2) for p_ in parts]
+        if any(r is True for r in rs):
+            return True
+        return None if any(r is None for r in rs) else False
+    if f == 'terminated' and len(a) == 2:
+        first = _accepts(a[0], b1, b2)
+        if first is not True:
+            return first
+        # the first parser must be a one-byte tag for the look-ahead to sit at b2
+        if not (a[0][0] == 'call' and a[0][1] == ('var', 'tag') and _lit(a[0][2][0]) is not None and len(_lit(a[0][2][0])) == 1):
+            return None
+        return _lookahead(a[1], b2)
+    return None
+
+
+def _lookahead(e, b):
+    """look-ahead parser at a position whose next byte is b (None = end of input)"""
+    if e[0] == 'call' and e[1] == ('var', 'peek'):
+        inner = e[2][0]
+        if inner[0] == 'call' and inner[1] == ('var', 'not'):
+            if b is None:
+                return True                      # nothing follows: the negated parser cannot match
+            r = _accepts(inner[2][0], b, None)
+            # a longer tag inside the negation is not looked at: only one-byte alternatives are evaluated exactly
+            return None if r is None else (not r)
+        if b is None:
+            return False                         # a positive look-ahead needs a character
+        return _accepts(inner, b, None)
+    return None
+
+
+def pp_total_run(fns, table, comb):
+    """C06 'never rejected unless ...': at every position of a directive-free text whose next byte does not start a
+    string (\"), an escaped identifier (\\), a directive (`) or a comment (// or /*), the run production
+    source_description_not_directive must accept, whatever follows - including the end of the text."""
+    failures, undecided, checked = [], [], 0
+    sd = table.get('source_description')
+    nd = table.get('source_description_not_directive')
+    if sd is None or nd is None:
+        return dict(failures=[fail('source_description', 'C06.pp.productions-found', 'pp productions not found (anchor lost)', ['C06'], None)], checked=0)
+    alts = called_names(sd.ast)
+    for need in ('comment', 'string_literal', 'escaped_identifier', 'source_description_not_directive', 'compiler_directive'):
+        checked += 1
+        if need not in alts:
+            failures.append(fail('source_description', 'C06.pp.alternative-%s' % need, 'source_description no longer tries %s' % need, ['C06'], sd))
+    # the repeated alternative list of the run production
+    run = None
+    for n in walk(nd.ast):
+        if n[0] == 'call' and n[1] == ('var', 'many1') and n[2] and n[2][0][0] == 'call' and n[2][0][1] == ('var', 'alt'):
+            run = n[2][0]
+            break
+    if run is None:
+        undecided.append('source_description_not_directive: many1(alt((..))) not found')
+        return dict(failures=failures, checked=checked, undecided=undecided)
+    bad = []
+    unknown = False
+    for b1 in range(256):
+        if b1 in b'`"\\':
+            continue
+        for b2 in [None] + list(range(256)):
+            if b1 == ord('/') and b2 in (ord('/'), ord('*')):
+                continue                          # a comment starts here
+            checked += 1
+            r = _accepts(run, b1, b2)
+            if r is None:
+                unknown = True
+            elif r is False:
+                bad.append((b1, b2))
+    if unknown:
+        undecided.append('source_description_not_directive uses a construct outside the look-ahead evaluator')
+    if bad:
+        b1, b2 = bad[0]
+        fl = fail('source_description_not_directive', 'C06.pp.every-directive-free-position-is-accepted',
+                  'no alternative accepts %d position kind(s), e.g. byte %r followed by %s' % (len(bad), chr(b1), 'end of input' if b2 is None else repr(chr(b2))), ['C06'], nd)
+        if b1 < 128 and (b2 is None or b2 < 128):
+            # a concrete directive-free text that must be accepted: replayed on the real preprocessor by replay_cmd
+            fl['witness'] = dict(source='gvc look-ahead analysis', input=chr(b1) + ('' if b2 is None else chr(b2)), args=['pp', chr(b1) + ('' if b2 is None else chr(b2))],
+                                 expected='TEXT (accepted, returned unchanged); a rejection prints ERR Preprocess(..)')
+        failures.append(fl)
+    return dict(failures=failures, checked=checked, undecided=undecided)
